@@ -1195,3 +1195,8 @@ T("c01-twin-sweep-exceptions-front", "C01", "_context.py", "callback exceptions 
 T("c09-twin-sweep-add-after-start-soon", "C09", "_concurrent.py", "the handle is added to the live set right after the synchronous start_soon (no checkpoint in between)",
   ("        self._tasks.add(task_handle)\n        self._task_group.start_soon(\n            self._run_background_task,\n            func,\n            task_handle,\n            self.exception_handler,\n            name=task_handle.name,\n        )\n        return task_handle\n",
    "        self._task_group.start_soon(\n            self._run_background_task,\n            func,\n            task_handle,\n            self.exception_handler,\n            name=task_handle.name,\n        )\n        self._tasks.add(task_handle)\n        return task_handle\n"))
+
+
+# =============================================================================== F9 (C08)
+M("c08-f9-inverse", "C08", "_utils.py", "C08.R2", "callable_name() reads __qualname__ of callable objects again (pre-fix F9): the finalizer raises before it stopped the task",
+  ("    if not hasattr(func, \"__qualname__\"):\n        func = type(func)\n\n", ""), control=False)
